@@ -28,6 +28,7 @@ type EvalCtx struct {
 	x      *Exec
 	st     *State
 	old    *State
+	cur    *State // inside old(...): the state old() was entered from (for now(...))
 	pkg    *types.Package
 	names  map[string]EV
 	lookup func(name string) (EV, bool)
@@ -810,7 +811,34 @@ func (c *EvalCtx) call(e *Expr) EV {
 		case "old":
 			nc := c.clone()
 			nc.st = c.old
+			if c.cur == nil {
+				nc.cur = c.st
+			}
 			return nc.Eval(args[0])
+		case "now":
+			// inside old(...): evaluate a sub-expression in the current state
+			if c.cur == nil {
+				return c.Eval(args[0])
+			}
+			nc := c.clone()
+			nc.st = c.cur
+			nc.cur = nil
+			return nc.Eval(args[0])
+		case "backing":
+			// the whole backing array object of a slice (for modifies clauses)
+			a := c.Eval(args[0])
+			sv, ok := a.V.(*SliceV)
+			if !ok {
+				specFail("backing of %T", a.V)
+			}
+			return EV{V: &PtrV{IsNil: tb.False(), Obj: sv.Obj, Elem: sv.Elem}}
+		case "deref":
+			a := c.Eval(args[0])
+			pv, ok := a.V.(*PtrV)
+			if !ok {
+				specFail("deref of %T", a.V)
+			}
+			return EV{V: x.load(c.st, pv, pv.Elem), T: pv.Elem}
 		case "ite":
 			cnd := c.Bool(args[0])
 			a, b := c.Eval(args[1]), c.Eval(args[2])
